@@ -25,6 +25,8 @@ OUTPUTS = [
     '14 feb 2021 and Feb 30, 2021\n', 'path /usr/local/bin and ./rel/x.txt\n',
     'quotes \' " and back\\slash\n', 'regex .* [a-z]+ (x|y) ^$ {2}\n', 'unicode é£ Ω ٣\n',
     'tab\there\n', '%s %d %%\n', 'line1\n\nline3\n',
+    'loaded 12 plugins, python 3.11.4\n', 'report for site A on 12/25/2031\nsecond line\n',
+    'build 7.30.1999 done\n',
 ]
 
 
@@ -214,6 +216,10 @@ def gen_cases(tier, seed):
         ({'out.txt': 'a\nb\n', 'data.bin': b'\x00\x01\xff'}, ['out.txt', 'data.bin']),
         ({'outdir/a.txt': 'in a directory\n', 'outdir/b.txt': 'second 2024-01-15\n'}, ['outdir']),
         ({'g1.log': 'glob one\n', 'g2.log': 'glob two\n'}, ['*.log']),
+        # same base name (with upper-case letters) in two directories, different content
+        ({'a/Report.txt': 'report A\n', 'b/Report.txt': 'report B\n'}, ['a/Report.txt', 'b/Report.txt']),
+        ({'x/data.txt': 'one\n', 'y/data.txt': 'two\n'}, ['x', 'y']),
+        ({'STDOUT': 'a file called STDOUT\n'}, ['STDOUT']),
     ]
     for i, (files, refs) in enumerate(filesets):
         cases.append(dict(out='made files\n', err='', code=0, files=files, refs=refs, script='test_f%d' % i, iterations=2))
